@@ -40,6 +40,16 @@ func main() {
 		os.Exit(2)
 	}
 	replayFile = *replay
+	if replayFile != "" {
+		// the case of a replay file is (seed, index): sub-commands built on caseSeq run it alone; the
+		// others regenerate the cases up to it with the same seed
+		var one caseID
+		if b, err := os.ReadFile(replayFile); err == nil && json.Unmarshal(b, &one) == nil && one.Seed != 0 {
+			*seed = one.Seed
+			*n = one.Index + 1
+			replayIndex = one.Index
+		}
+	}
 	f(*seed, *n, *tier, *out, *replay)
 }
 
